@@ -163,6 +163,9 @@ DecLenientOnlyAddsTrailing ==
     (~IsErr(r) /\ IsErr(Dec(o))) => (r.fn \in {0, 2, 5, 6, 8} /\ Len(Enc(r)) < Len(o)
                                       /\ SubSeq(Enc(r), 5, Len(Enc(r))) = SubSeq(o, 5, Len(Enc(r))))
 
+\* sanity (must be VIOLATED): the grid contains frames on which Annex J and the named deviation differ
+SanityLenientEqualsStrict == DecLenient(DOct(c)) = Dec(DOct(c))
+
 DecSeq == SetToSeq({d \in DecCases : DecCaseOK(d)})
 ASSUME DecOut == "DEC_OUT" \in DOMAIN IOEnv =>
     ndJsonSerialize(IOEnv.DEC_OUT, [i \in 1..Len(DecSeq) |->
